@@ -133,7 +133,10 @@ PROPS = {
             "oracles": [{"name": "flavour-differential", "run": flavour_oracle}],
             "assumptions": CACHE_ASSUME + ["AsyncCache is tied to the model only through Cache: the same scripted histories (quiescence after every operation, virtual clock, equal sketch seeds) are run against both and every observable compared; executors sampled: thread-per-task, tokio multi-thread, tokio current-thread",
                                            "the gets_kept / gets_dropped split and the queue length legitimately differ (bounded 3 vs unbounded) and are masked; their sum is compared"]},
-    "C17": {"module": None, "jobs": [cache_job(r"\.(metrics|life|policy|ret)$", extra=["--w-clear", "4"]), policy_job(r"^pol\..*(metrics|state)$")], "assumptions": CACHE_ASSUME},
+    "C17": {"module": "StrettoModel.Props.C17", "jobs": [cache_job(r"\.(metrics|life|policy|ret)$", extra=["--w-clear", "4"]), policy_job(r"^pol\..*(metrics|state)$")],
+            "branches": ["get.hit", "get.miss", "getmut.hit", "getmut.miss", "get.closed", "insert.dropped", "padd.room", "padd.evicting", "padd.rejected", "padd.already_charged", "p.item.update", "delete.resident", "tick.reclaimed", "p.clear.buf1"],
+            "assumptions": CACHE_ASSUME + ["the 256 stripes of each counter are summed into one u64 total in the model; every law is proved modulo 2^64 (equality whenever the true quantities fit)",
+                                           "ratio() is f64 arithmetic on hits and misses and the histogram's count = sum of buckets are compared / monitored on the implementation's own output, not proved; in the modelled code no admission is ever tracked (F14), so the life-expectancy clause is exercised only through the per-step theorems"]},
     "C18": {"module": "StrettoModel.Props.C18",
             "jobs": [cache_job(r"\.(store|ret|callbacks)$", extra=["--collisions", "1"], quick_lives=14),
                      {"name": "keys", "driver": "keys", "gen": lambda tier, seed: ["keys", "--seed", str(seed), "--ops", "300" if tier == "quick" else "5000"],
